@@ -354,6 +354,35 @@ func c12R3(c *Ctx, r *Report) {
 		if n == 0 {
 			r.Pass("C12-R3", "fn=(*auth.Authenticator).rehashPassword$callback no-SetPassword", c.Pos(fn.Pos()), "callback does not set passwords")
 		}
+		// … and only after the password was verified against that same freshly loaded hash: the caller verified it against the copy
+		// of the user it had loaded, which a concurrent password change makes stale by the time the callback re-runs.
+		k := 0
+		for _, lit := range fn.AnonFuncs {
+			for _, call := range c.Calls(lit, false, func(nm string) bool { return nm == "(*auth.userImpl).SetPassword" || nm == "(auth.User).SetPassword" }) {
+				k++
+				var okEdges []Edge
+				for _, cmp := range c.Calls(lit, false, nameIs("golang.org/x/crypto/bcrypt.CompareHashAndPassword", "auth.compareHashAndPassword")) {
+					a := cmp.Common().Args
+					hashArg := a[0]
+					if c.CalleeName(cmp) == "auth.compareHashAndPassword" {
+						hashArg = a[1]
+					}
+					if !DependsOn(hashArg, func(x ssa.Value) bool { p, ok := x.(*ssa.Parameter); return ok && p.Parent() == lit }) {
+						continue
+					}
+					cv := valueOfCall(cmp)
+					pos, neg := EdgesOnValue(lit, func(v ssa.Value) bool { return unwrapLoadFree(v) == cv })
+					if isErrorType(cv.Type()) {
+						okEdges = append(okEdges, neg...)
+					} else {
+						okEdges = append(okEdges, pos...)
+					}
+				}
+				ok := len(okEdges) > 0 && DominatedBy(lit, call, NewAvoid().AddEdge(okEdges...))
+				r.Check("C12-R3", fmt.Sprintf("fn=(*auth.Authenticator).rehashPassword$callback SetPassword #%d only-if=password-matches-fresh-hash", k), c.Pos(call.Pos()), ok,
+					"the password is re-verified against the hash of the principal handed to the callback", "the rehash callback re-hashes the password it was given without verifying it against the freshly loaded hash: when the password was changed concurrently (CAS retry) the old password is written back and authenticates again while the new one is rejected")
+			}
+		}
 	}
 }
 
